@@ -175,13 +175,17 @@ theorem lookupSeg_WF (k : Nat) : ∀ (segs : List (Bytes × Node)) (key : Bytes)
 
 theorem upsertSeg_WF (k : Nat) : ∀ (segs : List (Bytes × Node)) (key : Bytes) (c : Node),
     WFSegs k segs → WF k c → WFSegs k (upsertSeg segs key c)
-  | [], _, _, _, hc => by simp [upsertSeg, WFSegs, hc]
+  | [], _, _, _, hc => by simp [upsertSeg, upsertKV, WFSegs, hc]
   | (k', c') :: rest, key, c, hwf, hc => by
     simp only [WFSegs] at hwf
-    simp only [upsertSeg]
+    have ih := upsertSeg_WF k rest key c hwf.2 hc
+    simp only [upsertSeg] at ih ⊢
+    unfold upsertKV
     split
     · simp [WFSegs, hc, hwf.2]
-    · simp only [WFSegs]; exact ⟨hwf.1, upsertSeg_WF k rest key c hwf.2 hc⟩
+    · split
+      · simp only [WFSegs]; exact ⟨hc, hwf.1, hwf.2⟩
+      · simp only [WFSegs]; exact ⟨hwf.1, ih⟩
 
 theorem lookupVar_WF (k : Nat) : ∀ (vars : List (Var × Node)) (name : Bytes) (v : Var) (c : Node),
     WFVars k vars → lookupVar vars name = some (v, c) → WF (k + 1) c
@@ -207,18 +211,23 @@ theorem upsertVar_WF (k : Nat) : ∀ (vars : List (Var × Node)) (v : Var) (c : 
 
 theorem upsertMeth_mem : ∀ (ms : List (Bytes × Meth)) (key : Bytes) (m : Meth) (p : Bytes × Meth),
     p ∈ upsertMeth ms key m → p ∈ ms ∨ p = (key, m)
-  | [], _, _, p, h => by simp [upsertMeth] at h; exact Or.inr h
+  | [], _, _, p, h => by simp [upsertMeth, upsertKV] at h; exact Or.inr h
   | (k', m') :: rest, key, m, p, h => by
     simp only [upsertMeth] at h
+    unfold upsertKV at h
     split at h
     · rcases List.mem_cons.mp h with h | h
       · exact Or.inr h
       · exact Or.inl (by simp [h])
-    · rcases List.mem_cons.mp h with h | h
-      · exact Or.inl (by simp [h])
-      · rcases upsertMeth_mem rest key m p h with h | h
-        · exact Or.inl (by simp [h])
+    · split at h
+      · rcases List.mem_cons.mp h with h | h
         · exact Or.inr h
+        · exact Or.inl h
+      · rcases List.mem_cons.mp h with h | h
+        · exact Or.inl (by simp [h])
+        · rcases upsertMeth_mem rest key m p (by simpa [upsertMeth] using h) with h | h
+          · exact Or.inl (by simp [h])
+          · exact Or.inr h
 
 theorem register_WF (k : Nat) (n n' : Node) (verb : Bytes) (mid : Nat) (mk : Unit → Outcome Meth)
     (hwf : WF k n) (hmk : ∀ m, mk () = .ok m → m.vars.length = k)
